@@ -258,6 +258,11 @@ type Spec[T any] struct {
 	// Check decides one case. A non-nil error is a violation of the property.
 	// It must be a pure function of c.  r may be used to label the case.
 	Check func(c T, r *Recorder) error
+	// Exclude names the recorded known finding (if any) whose class the case
+	// falls in.  Consulted only while generating - never on replay - and only
+	// while that finding has status "known": the case is then skipped and
+	// counted, so the search continues past a recorded defect.
+	Exclude func(c T) string
 }
 
 type replayFile struct {
@@ -358,6 +363,12 @@ func (s *Spec[T]) Run(t *testing.T, gen func(*rapid.T) T, quickN, thoroughN int)
 	defer func() { r.flush(s.Prop, s.Name, s.Rule, false, start) }()
 	rapid.Check(t, func(rt *rapid.T) {
 		c := gen(rt)
+		if s.Exclude != nil {
+			if id := s.Exclude(c); id != "" && knownOpen(id) {
+				r.Excluded(id)
+				return
+			}
+		}
 		if err := s.safeCheck(c, r); err != nil {
 			p := s.violation(c, err)
 			rt.Fatalf("%s/%s violated: %v (case saved to %s)", s.Prop, s.Name, err, p)
@@ -374,6 +385,12 @@ func (s *Spec[T]) Enumerate(t *testing.T, exhaustive bool, each func(r *Recorder
 	defer func() { r.flush(s.Prop, s.Name, s.Rule, exhaustive, start) }()
 	failed := false
 	each(r, func(c T) bool {
+		if s.Exclude != nil {
+			if id := s.Exclude(c); id != "" && knownOpen(id) {
+				r.Excluded(id)
+				return true
+			}
+		}
 		if err := s.safeCheck(c, r); err != nil {
 			p := s.violation(c, err)
 			t.Errorf("%s/%s violated: %v (case saved to %s)", s.Prop, s.Name, err, p)
